@@ -135,6 +135,10 @@ def r01_1(chk, sg, cr):
     stores = [e for e in ev.events if e.kind == "store" and e.target.as_atom()[0] == "sub"]
     first = [e for e in stores if not e.loops]
     loop = [e for e in stores if e.loops]
+    # batched layout: blocks 1.. are written by one store  buf[n:] = ...  (no loop over the operations)
+    batched = [e for e in first if (e.target.as_atom()[2][0].as_atom() or ("",))[0] == "slice"
+               and e.target.as_atom()[2][0].as_atom()[1] == n and e.target.as_atom()[2][0].as_atom()[2].key() == "None"]
+    first = [e for e in first if e not in batched]
     ident_ok = {}
     for e in first:
         t = e.target.as_atom()
@@ -149,6 +153,11 @@ def r01_1(chk, sg, cr):
     other = [v for k, v in ev.defs.items() if k[1] == "other_symops"]
     chk.need(other, f"{q}: list of the remaining operations not found")
     chk.ob("R01.1", SG, q, "the remaining operations are ops[:u] and ops[u+1:] (each non-identity operation exactly once)", okpart, found=sl)
+    if not loop and len(batched) == 2:
+        r01_1_batched(chk, q, batched, coords, n)
+        ret = seq_items(ev.returns[-1].value)
+        okret = bool(ret and len(ret) == 2 and ret[0].as_atom()[1] == "generator_symop" and ret[1].as_atom()[1] == "transformed")
+        return _consumer_unpack(chk, sg, cr, q, okret, ev)
     chk.need(len(loop) == 2, f"{q}: expected two block stores in the loop")
     li = loop[0].loops[-1]
     chk.ob("R01.1", SG, q, "blocks are numbered from 1 (enumerate(..., start=1))", li.kind == "enumerate" and li.lo == P.const(1),
@@ -179,6 +188,80 @@ def r01_1(chk, sg, cr):
     ret = seq_items(ev.returns[-1].value)
     okret = bool(ret and len(ret) == 2 and ret[0].as_atom()[1] == "generator_symop" and ret[1].as_atom()[1] == "transformed")
     _consumer_unpack(chk, sg, cr, q, okret, ev)
+
+
+def _noit(k: str) -> str:
+    import re
+    return re.sub(r"_it#\d+", "_it", k)
+
+
+def _comp_of(term: P):
+    """numpy.array([ELT for s in LIST]) / [ELT for s in LIST]  ->  (normalised ELT key, LIST key) or None."""
+    a = term.as_atom()
+    if a and a[0] == "call" and call_name(a) in ("numpy.array", "numpy.asarray", "numpy.stack") and a[2]:
+        a = a[2][0].as_atom()
+    if a and a[0] == "comp" and a[1] in ("ListComp", "GeneratorExp") and len(a[3]) == 1 and not a[3][0][2]:
+        return _noit(a[2].key()), a[3][0][1].key()
+    return None
+
+
+def r01_1_batched(chk, q, batched, coords, n):
+    """transformed[n:] = (coords @ ROT + TR[:, None, :]).reshape(-1, 3); generator[n:] = repeat([s.integer_code ...], n):
+    ROT[k] must be the transpose of operation k's rotation (x -> x R^T + t, SymmetryOperation.apply), the three stacks
+    run over one list, and both buffers are operation-major."""
+    gen = [e for e in batched if "integer_code" in e.value.key()]
+    crd = [e for e in batched if e not in gen]
+    chk.need(len(gen) == 1 and len(crd) == 1, f"{q}: batched stores are not one coordinate and one generator store")
+    g = gen[0].value.as_atom()
+    gc = _comp_of(g[2][0]) if g and g[0] == "call" and call_name(g) == "numpy.repeat" and len(g[2]) == 2 else None
+    lst = gc[1] if gc else None
+    chk.ob("R01.1", SG, q, "generator codes are operation-major: repeat([s.integer_code for s in other], nsites)",
+           bool(gc) and gc[0] == f"{lst}[_it].integer_code" and g[2][1] == n, node=gen[0].node, fingerprint="batched:codes",
+           found=str(gen[0].value)[:200])
+    v = crd[0].value
+    a = v.as_atom()
+    shaped = False
+    if a and a[0] == "call" and isinstance(a[1], P) and (a[1].as_atom() or ("",))[0] == "attr" and a[1].as_atom()[2] == "reshape":
+        args = seq_items(a[2][0]) if len(a[2]) == 1 and seq_items(a[2][0]) else list(a[2])
+        shaped = len(args) == 2 and args[0] == P.const(-1) and args[1] == P.const(3)
+        v = a[1].as_atom()[1]
+    chk.ob("R01.1", SG, q, "the (operation, site, 3) stack is flattened operation-major by reshape(-1, 3)", shaped, node=crd[0].node,
+           fingerprint="batched:reshape", found=str(crd[0].value)[:120])
+    mm = find_atoms(v, lambda x: x[0] == "matmul")
+    rot_ok = tr_ok = same_list = False
+    detail = ""
+    if len(mm) == 1 and len(mm[0][1]) == 2 and mm[0][1][0].key() == coords.key():
+        R = mm[0][1][1]
+        outer_T = False
+        ra = R.as_atom()
+        if ra and ra[0] == "call" and ((call_name(ra) in ("numpy.swapaxes",) and [x.key() for x in ra[2][1:]] in (["1", "2"], ["2", "1"], ["-1", "-2"], ["-2", "-1"]))
+                                        or (call_name(ra) == "numpy.transpose" and len(ra[2]) == 2 and [x.key() for x in (seq_items(ra[2][1]) or [])] == ["0", "2", "1"])):
+            outer_T, R = True, ra[2][0]
+        elif ra and ra[0] == "call" and isinstance(ra[1], P) and (ra[1].as_atom() or ("",))[0] == "attr" and ra[1].as_atom()[2] in ("transpose", "swapaxes"):
+            ks = [x.key() for x in ((seq_items(ra[2][0]) if len(ra[2]) == 1 and seq_items(ra[2][0]) else list(ra[2])))]
+            if (ra[1].as_atom()[2] == "transpose" and ks == ["0", "2", "1"]) or (ra[1].as_atom()[2] == "swapaxes" and sorted(ks) in (["1", "2"], ["-1", "-2"])):
+                outer_T, R = True, ra[1].as_atom()[1]
+        rc = _comp_of(R)
+        if rc:
+            elt, rl = rc
+            per_T = elt in (f"(T {rl}[_it].rotation)", f"numpy.transpose({rl}[_it].rotation)")
+            plain = elt == f"{rl}[_it].rotation"
+            rot_ok = (per_T and not outer_T) or (plain and outer_T)
+            detail = f"stack of {elt}" + (" with the last two axes exchanged" if outer_T else "")
+            rest = v - P.atom(mm[0])
+            ta = rest.as_atom()
+            if ta and ta[0] == "sub":
+                tc = _comp_of(ta[1])
+                idx = [i.key() for i in ta[2]]
+                tr_ok = bool(tc) and tc[0] == f"{tc[1]}[_it].translation" and len(idx) == 3 and idx[1] in ("numpy.newaxis", "None") \
+                    and idx[0].startswith("(slice None None") and idx[2].startswith("(slice None None")
+                same_list = bool(tc) and tc[1] == rl == lst
+    chk.ob("R01.1", SG, q, "image k is coordinates . R_k^T + t_k (the map SymmetryOperation.apply computes): the stacked matrices are the transposed rotations",
+           rot_ok, node=crd[0].node, fingerprint="batched:rotation", expected="np.array([s.rotation.T for s in other]) (or the stack with its last two axes exchanged)",
+           found=detail or str(v)[:200])
+    chk.ob("R01.1", SG, q, "translation k is added to every site of block k (t[:, None, :])", tr_ok, node=crd[0].node, fingerprint="batched:translation",
+           found=str(v)[:200])
+    chk.ob("R01.1", SG, q, "rotations, translations and codes are taken from one and the same list of operations", same_list, fingerprint="batched:one-list")
 
 
 def _consumer_unpack(chk, sg, cr, q, okret, ev):
